@@ -65,10 +65,11 @@ def one(seed):
     pep, c0 = build(rnd)
     w = HeurWrapper(fail=fail)
     w.expected_tol = rnd.choice([1e-5, 1e-4, 1e-3, 1e-2])
+    verbose = rnd.choice([0, 0, 1, 2, -1])          # the calls made to the solver must not depend on the verbosity
     raises = False; ret = None
     try:
         with contextlib.redirect_stdout(io.StringIO()):
-            ret = pep._solve_with_wrapper(w, verbose=0, return_primal_or_dual=mode, tol_dimension_reduction=w.expected_tol,
+            ret = pep._solve_with_wrapper(w, verbose=verbose, return_primal_or_dual=mode, tol_dimension_reduction=w.expected_tol,
                                           dimension_reduction_heuristic=None if heur == "none" else heur)
     except ValueError:
         raises = True
